@@ -1,5 +1,5 @@
 ---- MODULE Itp_Unbacked ----
 (* instance wrapper for C11 (TLC evaluates zero-arity definitions eagerly: one module per instance) *)
 EXTENDS ItpRoundTripExport
-MCMols == MolsUnbacked(0)
+MCMols == TLCEval(MolsUnbacked(0))
 ====
